@@ -30,7 +30,8 @@ class Instance:
         self.hname = hname
         self.cfg = cfg
         self.defs = list(self.h.get("defs", [])) + list(defs)
-        self.cap = cap or self.h.get("cap", 120)
+        # caps are measured-time x >= 3 on an idle 16-core machine; VF_CAP_MULT gives slack on a loaded one
+        self.cap = int((cap or self.h.get("cap", 120)) * float(os.environ.get("VF_CAP_MULT", "2")))
         self.rss = rss or self.h.get("rss", 1.0)
         base = list(self.h.get("flags", []))
         if flags and "--unwind" in flags and "--unwind" in base:
